@@ -646,6 +646,10 @@ class Output(object):
         if not isinstance(network, Network):
             self.network = Network(network)
         self.value = value_to_satoshi(value, network=network)
+        if isinstance(self.value, float):
+            if not self.value.is_integer():
+                raise TransactionError("Output value must be an integer amount of the smallest denominator")
+            self.value = int(self.value)
         self.lock_script = b'' if lock_script is None else to_bytes(lock_script)
         self.public_hash = to_bytes(public_hash)
         if isinstance(address, Address):
